@@ -162,8 +162,9 @@ def integrate_spin(expr: Expr, target_idx: str, target_spin: str) -> Expr:
                 if not valid:
                     continue
                 if idx_map["a"] & idx_map["b"]:
-                    raise ValueError("Found invalid allowed spin block "
-                                     f"{block} for {obj}.")
+                    # an index that occurs more than once on the object
+                    # can not have two different spins -> skip the block
+                    continue
                 obj_spin_idx_maps.append(idx_map)
             if not obj_spin_idx_maps:
                 term_vanishes = True
@@ -306,12 +307,16 @@ def allowed_spin_blocks(expr: Expr, target_idx: str) -> tuple[str]:
             object_idx_maps = []
             for block in allowed_object_blocks:
                 idx_map = {}
+                valid = True
                 for spin, idx in zip(block, obj_indices):
                     if idx in idx_map and idx_map[idx] != spin:
-                        raise ValueError("Found invalid allowed spin block "
-                                         f"{block} for {obj}.")
+                        # an index that occurs more than once on the object
+                        # can not have two different spins -> skip the block
+                        valid = False
+                        break
                     idx_map[idx] = spin
-                object_idx_maps.append(idx_map)
+                if valid:
+                    object_idx_maps.append(idx_map)
             term_idx_maps.append((object_idx_maps, n_target))
         # - sort the allowed_tensor_blocks such that tensors with a high
         #   number of target indices are preferred
